@@ -680,7 +680,22 @@ func errorExit(x ssa.Instruction) bool {
 		return false
 	}
 	v := r.Results[len(r.Results)-1]
-	return isErrorType(v.Type()) && !isNilConst(v)
+	if !isErrorType(v.Type()) {
+		return false
+	}
+	// a function with defers returns through a spilled result variable: `*res = nil; rundefers; return *res`
+	if u, ok := v.(*ssa.UnOp); ok && u.Op == token.MUL {
+		if cell, isCell := u.X.(*ssa.Alloc); isCell {
+			instrs := r.Block().Instrs
+			for i := len(instrs) - 1; i >= 0; i-- {
+				if st, isSt := instrs[i].(*ssa.Store); isSt && st.Addr == ssa.Value(cell) {
+					v = st.Val
+					break
+				}
+			}
+		}
+	}
+	return !isNilConst(v)
 }
 
 // mustFollow: after every instruction matching trig, an instruction matching eff follows on all paths.
